@@ -7,7 +7,7 @@ WT=$1; NAME=$2; DEST=/verif/seeded/$NAME
 mkdir -p $DEST; cp -r $WT/SEEDED/* $DEST/
 LOG=$DEST/confirm.log; : > $LOG
 cd $WT || exit 2
-git stash -q -u 2>/dev/null; git checkout -q -- . ; git clean -fdq -e target -e SEEDED
+git checkout -q -- . ; git clean -fdq -e target -e SEEDED
 BASE=$(git -C /repo rev-parse HEAD)
 echo "base(worktree HEAD)=$(git rev-parse HEAD)  repo HEAD=$BASE" >> $LOG
 git apply --check $DEST/patch.diff >> $LOG 2>&1 && echo "patch applies: yes" >> $LOG || { echo "patch applies: NO" >> $LOG; exit 1; }
